@@ -572,6 +572,23 @@ func apply(w *walk.Worker, ctx sdk.Context, e *graph.Edge, path []*graph.Edge, g
 		}
 		if outcome != want {
 			fail("C13", "outcome", "dist.update.outcome."+graph.Str(u["kind"]), "parameter update accept/reject differs from the model ("+detail+")", want, outcome)
+			if outcome == "ok" {
+				// the code stored parameters that the specification refuses: does the chain survive them?  Two blocks with coins
+				// on every bank account a sub-distributor may draw from (C10)
+				pctx, _ := ctx.CacheContext()
+				for b := 0; b < 2; b++ {
+					for _, acc := range s.bankAccounts() {
+						if err := s.deposit(pctx, acc.key, sdk.NewCoins(sdk.NewCoin("uc4e", sdk.NewInt(10)))); err != nil {
+							break
+						}
+					}
+					pctx = pctx.WithBlockHeight(pctx.BlockHeight() + 1).WithBlockTime(pctx.BlockTime().Add(5 * time.Second))
+					if p := env.Try(func() { cfedistributor.BeginBlocker(pctx, app.CfedistributorKeeper) }); p != "" {
+						fail("C10", "panic", "dist.beginblock.panic.after-accepted-update", "BeginBlocker panicked after a parameter update that the specification refuses was accepted: "+p, "no panic", p)
+						break
+					}
+				}
+			}
 			return ctx, fs, true
 		}
 	case "export":
@@ -630,6 +647,10 @@ func apply(w *walk.Worker, ctx sdk.Context, e *graph.Edge, path []*graph.Edge, g
 				prop = "C14"
 			}
 			fail(prop, "predicate", "dist.books."+shape, msg, nil, nil)
+			if faulty {
+				// a failed transfer excuses nothing: the books must match the coins held in every idle state (C03), too
+				fail("C03", "predicate", "dist.books.under-fault."+shape, msg, nil, nil)
+			}
 		}
 	}
 	// --- comparison with the model
@@ -667,6 +688,10 @@ func apply(w *walk.Worker, ctx sdk.Context, e *graph.Edge, path []*graph.Edge, g
 					p = "C03"
 				}
 				fail(p, "mismatch", "dist.balance."+shape, fmt.Sprintf("balance of %s (%s) differs from the model", k, d), eb[k][d], got)
+				if faulty {
+					// what a destination holds and is owed is its share of what really flowed in, whatever failed on the way (C04)
+					fail("C04", "mismatch", "dist.balance.under-fault."+shape, fmt.Sprintf("balance of %s (%s) differs from the model in a block with a failing transfer", k, d), eb[k][d], got)
+				}
 			}
 		}
 	}
@@ -695,6 +720,9 @@ func apply(w *walk.Worker, ctx sdk.Context, e *graph.Edge, path []*graph.Edge, g
 				}
 				if want.Cmp(got) != 0 {
 					fail(owner, "mismatch", "dist.leftover."+shape, fmt.Sprintf("leftover of %s (%s) differs from the model", k, d), want.FloatString(18), got.FloatString(18))
+					if faulty {
+						fail("C04", "mismatch", "dist.leftover.under-fault."+shape, fmt.Sprintf("leftover of %s (%s) differs from the model in a block with a failing transfer", k, d), want.FloatString(18), got.FloatString(18))
+					}
 					if k == "BURN" {
 						// the burn leftover is the pending supply reduction: what is burned now or later is no longer what the configuration says
 						fail("C01", "mismatch", "dist.burn-leftover."+shape, fmt.Sprintf("burn leftover (%s) differs from the configured burn share of the inflow minus what was burned", d), want.FloatString(18), got.FloatString(18))
